@@ -14,9 +14,9 @@ TRUSTED_BASE = [
 ASSUMPTIONS = ["the peer makes progress (C17's premise)"]
 
 
-def case_lines(name, mode, blocking, total, chunk, finish, ops, probe=0):
+def case_lines(name, mode, blocking, total, chunk, finish, ops, probe=0, vectored=0):
     return ["case " + name, "mode " + mode, "blocking %d" % blocking, "total %d chunk %d" % (total, chunk), "finish " + finish,
-            "probe %d" % probe] + ops + ["end"]
+            "probe %d" % probe] + (["vectored 1"] if vectored else []) + ops + ["end"]
 
 
 def gen_cases(tier, seed, search):
@@ -47,7 +47,8 @@ def gen_cases(tier, seed, search):
                 if rnd.random() < 0.8:
                     ops.append("settle")
             ops += ["finishpeer"]
-        cases.append(case_lines("a%d" % i, mode, rnd.randrange(2), total, chunk, rnd.choice(["drop", "intoinner"]), ops, probe=1 if rnd.random() < 0.35 else 0))
+        cases.append(case_lines("a%d" % i, mode, rnd.randrange(2), total, chunk, rnd.choice(["drop", "intoinner"]), ops, probe=1 if rnd.random() < 0.35 else 0,
+                                vectored=1 if mode == "write" and rnd.random() < 0.4 else 0))
     return cases
 
 
@@ -72,6 +73,11 @@ SPECIAL = [
     ["case adaptsame_parked_writer", "mode write", "blocking 0", "total 400000 chunk 100000", "finish drop", "probe 0",
      "settle", "adaptsame", "peer 300000", "settle", "finishpeer", "end"],
     # C15/C17: adapting an fd the poller refuses fails cleanly (slot freed, blocking mode restored)
+    # refused before the poller is asked (closed fd: EBADF when the fd is made non-blocking): no slot may stay taken
+    ["case adaptclosed", "mode adaptclosed", "end"],
+    # a vectored write parked on a full socket buffer is woken by the peer draining it
+    ["case vectored_parked_writer", "mode write", "blocking 0", "total 400000 chunk 100000", "finish drop", "probe 0", "vectored 1",
+     "settle", "peer 300000", "settle", "finishpeer", "end"],
     ["case adaptfail_blocking", "mode adaptfail", "blocking 1", "end"],
     ["case adaptfail_nonblocking", "mode adaptfail", "blocking 0", "end"],
 ]
@@ -93,6 +99,11 @@ def spec_c17(case, trace):
         want = "adaptfail err=1 bookkeeping=same nonblock=%d" % (0 if case[2].split()[1] == "1" else 1)
         if len(trace) < 2 or trace[1] != want:
             return "adapting an fd the poller refuses: expected `%s`, got `%s`" % (want, trace[1] if len(trace) > 1 else "<nothing>")
+        return None
+    if mode == "adaptclosed":
+        want = "adaptclosed errs=3 occupied=0->0 slots_grew=0"
+        if len(trace) < 2 or trace[1] != want:
+            return "adapting a closed fd, three times: expected `%s`, got `%s`" % (want, trace[1] if len(trace) > 1 else "<nothing>")
         return None
     blocking = case[2].split()[1] == "1"
     total = int(case[3].split()[1])
@@ -163,7 +174,7 @@ def run_all(cases, have_drv=True):
 
 def comparable(case):
     """the model knows nothing of the socket buffer size: it is compared on reads and on writes that fit"""
-    if case[1] == "mode adaptfail":
+    if case[1] in ("mode adaptfail", "mode adaptclosed"):
         return True
     total, chunk = int(case[3].split()[1]), int(case[3].split()[3])
     return case[1] == "mode read" or (total <= 65536 and total // max(chunk, 1) <= 100)
